@@ -106,9 +106,9 @@ class HistoryMachine(RuleBasedStateMachine):
         vt = data.draw(VT, label="vt")
         self.do({"op": "add", "i": i % self.N, "k": self.key(ki), "v": v, **({"vt": vt} if vt else {}), **self._draws(data)})
 
-    @rule(i=SK, kis=st.lists(IDX, min_size=0, max_size=6), data=st.data())
-    def update_list(self, i, kis, data):
-        self.do({"op": "update_list", "i": i % self.N, "keys": [self.key(k) for k in kis], **self._draws(data)})
+    @rule(i=SK, kis=st.lists(IDX, min_size=0, max_size=6), how=st.sampled_from(["list", "list", "tuple", "iter"]), data=st.data())
+    def update_list(self, i, kis, how, data):
+        self.do({"op": "update_list", "i": i % self.N, "keys": [self.key(k) for k in kis], **({"as": how} if how != "list" else {}), **self._draws(data)})
 
     @precondition(lambda self: self.LONG_LISTS)
     @rule(i=SK, kis=st.lists(IDX, min_size=2, max_size=5), n=st.sampled_from([255, 256, 257, 300, 1024]), data=st.data())
@@ -121,7 +121,8 @@ class HistoryMachine(RuleBasedStateMachine):
     def update_dict(self, i, kis, data):
         items = [[self.key(k), data.draw(self.VALUES, label="v")] for k in kis]
         vt = data.draw(VT, label="vt")
-        self.do({"op": "update_dict", "i": i % self.N, "items": items, **({"vt": vt} if vt else {}), **self._draws(data)})
+        how = data.draw(st.sampled_from(["dict", "dict", "counter"]), label="as")
+        self.do({"op": "update_dict", "i": i % self.N, "items": items, **({"vt": vt} if vt else {}), **({"as": how} if how != "dict" else {}), **self._draws(data)})
 
     @precondition(lambda self: self.NGRAM)
     @rule(i=SK, ki=IDX, n=st.integers(1, 9), data=st.data())
@@ -129,9 +130,9 @@ class HistoryMachine(RuleBasedStateMachine):
         self.do({"op": "add_ngram", "i": i % self.N, "k": self.key(ki), "n": n, **self._draws(data)})
 
     @precondition(lambda self: self.NGRAM)
-    @rule(i=SK, kis=st.lists(IDX, min_size=0, max_size=3), n=st.integers(1, 9), data=st.data())
-    def update_ngram(self, i, kis, n, data):
-        self.do({"op": "update_ngram", "i": i % self.N, "keys": [self.key(k) for k in kis], "n": n, **self._draws(data)})
+    @rule(i=SK, kis=st.lists(IDX, min_size=0, max_size=3), n=st.integers(1, 9), how=st.sampled_from(["list", "list", "iter"]), data=st.data())
+    def update_ngram(self, i, kis, n, how, data):
+        self.do({"op": "update_ngram", "i": i % self.N, "keys": [self.key(k) for k in kis], "n": n, **({"as": how} if how != "list" else {}), **self._draws(data)})
 
     @precondition(lambda self: self.N > 1 or self.SELF_MERGE)
     @rule(i=SK, j=SK)
